@@ -220,3 +220,51 @@ pub fn surplus_failing_sublayout(r: &mut Report) {
                format!("{} root_inspection_ran={}", match &res { Ok(v) => verdict(v), Err(p) => format!("panic: {}", p) }, ran), matches!(&res, Ok(v) if v.is_ok() == expect_ok) && ran == expect_ok);
     }
 }
+
+/// C15 / C08: an inspection that bears the name of a step never shields that step's evidence from the step's rules - in the root
+/// layout, inside a sub-layout, and in the parent of a delegated step (whose evidence is the sub-layout's summary)
+pub fn inspection_named_like_a_step(r: &mut Report) {
+    use in_toto::models::inspection::Inspection;
+    use in_toto::models::rule::ArtifactRule;
+    use in_toto::models::VirtualTargetPath;
+    let owner = key(1); let (ka, kb) = (key(2), key(3));
+    let vp = |s: &str| VirtualTargetPath::new(s.into()).unwrap();
+    let strict = || vec![ArtifactRule::Allow(vp("good")), ArtifactRule::Disallow(vp("*"))];
+    let insp = |name: &str| Inspection::new(name).run(cmd(&["true"])).expected_materials(allow_all()).expected_products(allow_all());
+    for level in ["root", "inside-sub-layout", "parent-of-delegation"] { for violating in [true, false] { for collide in [true, false] {
+        let _g = crate::c08::CWD_LOCK.lock().unwrap();
+        let d = tmpdir(); let work = tmpdir();
+        let prod = if violating { "bad" } else { "good" };
+        let lay = match level {
+            "root" => {
+                write_link(d.path(), "s", ka.key_id(), &signed_link(&link("s", &[], &[(prod, 7)]), &[&ka]));
+                layout(vec![step("s", 1, &[&ka], allow_all(), strict())], vec![insp(if collide { "s" } else { "other" })], &[&ka], 30)
+            }
+            "inside-sub-layout" => {
+                let sub = layout(vec![step("inner", 1, &[&kb], allow_all(), strict())], vec![insp(if collide { "inner" } else { "other" })], &[&kb], 30);
+                write_link(d.path(), "s", ka.key_id(), &signed_layout(&sub, &[&ka]));
+                let subdir = d.path().join(format!("s.{}", ka.key_id().prefix()));
+                std::fs::create_dir_all(&subdir).unwrap();
+                write_link(&subdir, "inner", kb.key_id(), &signed_link(&link("inner", &[], &[(prod, 7)]), &[&kb]));
+                layout(vec![step("s", 1, &[&ka], allow_all(), allow_all())], vec![], &[&ka], 30)
+            }
+            _ => {
+                let sub = layout(vec![step("inner", 1, &[&kb], allow_all(), allow_all())], vec![], &[&kb], 30);
+                write_link(d.path(), "s", ka.key_id(), &signed_layout(&sub, &[&ka]));
+                let subdir = d.path().join(format!("s.{}", ka.key_id().prefix()));
+                std::fs::create_dir_all(&subdir).unwrap();
+                write_link(&subdir, "inner", kb.key_id(), &signed_link(&link("inner", &[], &[(prod, 7)]), &[&kb]));
+                // the parent's rules judge the summary of the delegation
+                layout(vec![step("s", 1, &[&ka], allow_all(), strict())], vec![insp(if collide { "s" } else { "other" })], &[&ka], 30)
+            }
+        };
+        let lay = signed_layout(&lay, &[&owner]);
+        let old = std::env::current_dir().unwrap();
+        std::env::set_current_dir(work.path()).unwrap();
+        let res = no_panic(|| in_toto_verify(&lay, owner_keys(&[&owner]), d.path().to_str().unwrap(), None).is_ok());
+        std::env::set_current_dir(old).unwrap();
+        r.case("inspection-named-like-a-step-shields-nothing", json!({"level": level, "step_evidence_violates_its_rules": violating, "inspection_bears_the_step_name": collide}), if violating { "Err" } else { "Ok" },
+               format!("{:?}", res), res == Ok(!violating));
+    } } }
+}
+
